@@ -14,40 +14,56 @@ From Raven Require Import Base.GoStr Model.BlobCodec Model.Blobs Spec.BlobSpec
   Proof.BlobsInv Proof.Blobs Proof.BlobsWitness.
 Import ListNotations.
 
-(** (a) For every history, every writer/reader configuration and every fault
-    oracle: a read outside the three finding classes yields exactly the part's
-    own octets (spec_read with "no backend failure"). *)
+(** (a)+(d) For every history, every writer/reader configuration and every
+    fault oracle: a read outside the de-duplication class either yields exactly
+    the part's own octets, or is reported as an error and then the backend did
+    fail for this read ([read_failed]: the blob lives in the object store and
+    the reader has no S3, or the GET failed, or the object is gone).  Since the
+    repair "blob-read-errors" this covers the former classes ConfigMismatch and
+    ReadFault. *)
 Theorem c15_read_own_octets :
   forall (key : str -> str -> str) (okey : str -> str),
   (forall a b, okey a = okey b -> a = b) -> (forall a, okey a <> []) ->
   forall (evs : list event) (m k : nat) (row : partrow) (reader_s3 : bool) (o : oracle),
   row_of (run key okey evs) m k = Some row ->
-  classify okey reader_s3 (run key okey evs) row o = None ->
-  spec_read (r_own row) false (observed (rd (read_part reader_s3 (run key okey evs) row o))).
+  classify okey (run key okey evs) row = None ->
+  spec_read (r_own row) (read_failed reader_s3 (run key okey evs) row o)
+            (rd (read_part reader_s3 (run key okey evs) row o)).
 Proof. exact read_own_octets. Qed.
 Print Assumptions c15_read_own_octets.
 
-(** (d, what holds) outside the de-duplication class no read ever yields
-    foreign octets: it yields the own octets or the empty string. *)
+(** outside the de-duplication class no read ever yields foreign or silently
+    empty octets: own octets, or an error. *)
 Theorem c15_read_never_foreign :
   forall (key : str -> str -> str) (okey : str -> str),
   (forall a b, okey a = okey b -> a = b) -> (forall a, okey a <> []) ->
   forall evs m k row reader_s3 o,
   row_of (run key okey evs) m k = Some row ->
-  classify okey reader_s3 (run key okey evs) row o <> Some DedupEncoding ->
-  rd (read_part reader_s3 (run key okey evs) row o) = r_own row \/
-  rd (read_part reader_s3 (run key okey evs) row o) = [].
+  classify okey (run key okey evs) row <> Some DedupEncoding ->
+  rd (read_part reader_s3 (run key okey evs) row o) = Some (r_own row) \/
+  rd (read_part reader_s3 (run key okey evs) row o) = None.
 Proof. exact read_never_foreign. Qed.
 Print Assumptions c15_read_never_foreign.
 
-(** (d, what fails) in the classes ConfigMismatch and ReadFault the read
-    yields the empty string — in every state, not only reachable ones. *)
-Theorem c15_fault_reads_empty :
-  forall (okey : str -> str) w row reader_s3 o c,
-  classify okey reader_s3 w row o = Some c -> c <> DedupEncoding ->
-  rd (read_part reader_s3 w row o) = [].
-Proof. exact fault_reads_empty. Qed.
-Print Assumptions c15_fault_reads_empty.
+(** (d) in EVERY state (reachable or not, any class): a backend failure while
+    reading is reported as an error ... *)
+Theorem c15_read_failure_is_error :
+  forall w row reader_s3 o,
+  read_failed reader_s3 w row o = true -> rd (read_part reader_s3 w row o) = None.
+Proof. exact read_failure_is_error. Qed.
+Print Assumptions c15_read_failure_is_error.
+
+(** ... and an error is reported only then. *)
+Theorem c15_error_only_if_failed :
+  forall (key : str -> str -> str) (okey : str -> str),
+  (forall a b, okey a = okey b -> a = b) -> (forall a, okey a <> []) ->
+  forall evs m k row reader_s3 o,
+  row_of (run key okey evs) m k = Some row ->
+  classify okey (run key okey evs) row = None ->
+  rd (read_part reader_s3 (run key okey evs) row o) = None ->
+  read_failed reader_s3 (run key okey evs) row o = true.
+Proof. exact error_only_if_failed. Qed.
+Print Assumptions c15_error_only_if_failed.
 
 (** (b) For every history with every fault oracle: the reference count of
     every blob equals the number of part rows that use it ... *)
@@ -97,7 +113,7 @@ Theorem c15_store_fault_falls_back :
   objs_ok okey (w_objs w) ->
   find_key (w_blobs w) (key (p_enc p) (p_content p)) = None ->
   store_part key okey writer_s3 w p o d = (row, w', o', d') ->
-  rd (read_part writer_s3 w' row []) = p_content p.
+  rd (read_part writer_s3 w' row []) = Some (p_content p).
 Proof. exact store_fault_falls_back. Qed.
 Print Assumptions c15_store_fault_falls_back.
 
@@ -107,33 +123,39 @@ Theorem c15_reachable_objs_ok :
 Proof. exact run_objs_ok. Qed.
 Print Assumptions c15_reachable_objs_ok.
 
-(** ---- where raven violates the property: one witness per class, on the
-    model instantiated with the Go decoders *)
+(** ---- where raven still violates the property: de-duplication across
+    encodings (shared with C02), witness on the model instantiated with the Go decoders *)
 Theorem c15_refuted_dedup_encoding :
-  gclass false wit_dedup 1 0 [] = Some DedupEncoding /\
+  gclass wit_dedup 1 0 = Some DedupEncoding /\
   gown wit_dedup 1 0 = Some (S_ "QUJDRA==") /\
-  gread false wit_dedup 1 0 [] = Some (S_ "ABCD") /\
+  gread false wit_dedup 1 0 [] = Some (Some (S_ "ABCD")) /\
   violates false wit_dedup 1 0 [] = true.
 Proof. exact refuted_dedup_encoding. Qed.
 Print Assumptions c15_refuted_dedup_encoding.
 
-Theorem c15_refuted_config_mismatch :
-  gclass false wit_config 0 0 [] = Some ConfigMismatch /\
-  gread false wit_config 0 0 [] = Some [] /\
-  violates false wit_config 0 0 [] = true /\
-  gread true wit_config 0 0 [] = Some (S_ "hello world").
-Proof. exact refuted_config_mismatch. Qed.
-Print Assumptions c15_refuted_config_mismatch.
+(** the former witnesses of ConfigMismatch / ReadFault now satisfy the spec
+    (the read is an error), and the old observable (empty string, no error)
+    does not — regression examples *)
+Example c15_config_mismatch_is_error :
+  gclass wit_config 0 0 = None /\
+  gfailed false wit_config 0 0 [] = true /\
+  gread false wit_config 0 0 [] = Some None /\
+  violates false wit_config 0 0 [] = false /\
+  gread true wit_config 0 0 [] = Some (Some (S_ "hello world")).
+Proof. exact config_mismatch_is_error. Qed.
 
-Theorem c15_refuted_read_fault_empty :
-  gclass true wit_config 0 0 [OFail] = Some ReadFault /\
-  gread true wit_config 0 0 [OFail] = Some [] /\
-  violates true wit_config 0 0 [OFail] = true /\
-  gclass true wit_lost 0 0 [] = Some ReadFault /\
-  gread true wit_lost 0 0 [] = Some [] /\
-  violates true wit_lost 0 0 [] = true.
-Proof. exact refuted_read_fault_empty. Qed.
-Print Assumptions c15_refuted_read_fault_empty.
+Example c15_read_fault_is_error :
+  gfailed true wit_config 0 0 [OFail] = true /\
+  gread true wit_config 0 0 [OFail] = Some None /\
+  violates true wit_config 0 0 [OFail] = false /\
+  gfailed true wit_lost 0 0 [] = true /\
+  gread true wit_lost 0 0 [] = Some None /\
+  violates true wit_lost 0 0 [] = false.
+Proof. exact read_fault_is_error. Qed.
+
+Example c15_old_behaviour_violates_spec :
+  spec_read_ok (S_ "hello world") true (Some []) = false.
+Proof. exact old_behaviour_violates_spec. Qed.
 
 (** the instance used by the witnesses and by the correspondence check meets
     the premises of the theorems *)
@@ -144,10 +166,10 @@ Print Assumptions c15_instance_ok.
 
 (** non-vacuity: stores under object-store and database faults, read back *)
 Example c15_faults_example :
-  gread true wit_faults 0 0 [] = Some (S_ "part one") /\
-  gread false wit_faults 0 0 [] = Some (S_ "part one") /\
-  gread false wit_faults 1 0 [] = Some (S_ "part two") /\
-  gread true wit_faults 2 1 [] = Some (S_ "part three") /\
+  gread true wit_faults 0 0 [] = Some (Some (S_ "part one")) /\
+  gread false wit_faults 0 0 [] = Some (Some (S_ "part one")) /\
+  gread false wit_faults 1 0 [] = Some (Some (S_ "part two")) /\
+  gread true wit_faults 2 1 [] = Some (Some (S_ "part three")) /\
   map b_refs (w_blobs (grun wit_faults)) = [1; 2] /\
-  gclass true wit_faults 2 1 [] = None.
+  gclass wit_faults 2 1 = None.
 Proof. exact faults_example. Qed.
